@@ -81,10 +81,10 @@ package models
 //@ func (*Item).AddChild
 //@   property C11
 //@   attr guarded i i.childrenMu exempt id,url,seedVia,status,source,base,parent,err
-//@   requires [wf] wfNode(i) && (child != nil ==> wfNode(child) && child.parent == nil && len(child.children) == 0 && child.seedVia == "" && child != i)
+//@   requires [wf] wfNode(i) && (child != nil ==> child.url != nil && child.id != "" && len(child.children) == 0 && child.seedVia == "" && child != i && forall(j, 0, len(i.children), i.children[j] != child))
 //@   requires [redirect-once] from == ItemGotRedirected ==> len(i.children) == 0
 //@   modifies i.children, i.status, child.parent, child.status, elems(i.children)
-//@   ensures [error-iff] (result != nil) == (child == nil || !isGot(from))
+//@   ensures [error-iff] (result != nil) == (child == nil || !isGot(from) || (child.parent != nil && child.parent.status == ItemGotRedirected && (from == ItemGotChildren || child.status == ItemGotChildren)))
 //@   ensures [error-pure] result != nil ==> len(i.children) == old(len(i.children)) && i.status == old(i.status) && forall(j, 0, len(i.children), i.children[j] == old(i.children[j]))
 //@   ensures [appended] result == nil ==> len(i.children) == old(len(i.children)) + 1 && i.children[len(i.children)-1] == child && forall(j, 0, old(len(i.children)), i.children[j] == old(i.children[j])) // C11: adding assets or a redirect target
 //@   ensures [linked] result == nil ==> child.parent == i && i.status == from && child.status == ItemFresh // C11: symmetric parent/child links
@@ -187,11 +187,14 @@ package models
 //   leaf-only   the removed node has no children, so no URL below it disappears with it
 //@ func (*Item).DedupeItems
 //@   property C11
-//@   replay dedupeItems
+//@   replay dedupeItems:leaf-only
 //@   attr assert-all RemoveChild
 //@   requires ErrNotASeed != nil
 //@   modifies Item::status, Item::children, elem::*Item
+//@   local lastRemoved *Item = nil
+//@   after RemoveChild(parent)#1: lastRemoved = ite(existing == node, nil, existing)
 //@   loop range invariant [map] forall(k, string, has(urls, k) ==> urls[k] != nil && urlKey(urls[k].url) == k)
+//@   loop range invariant [no-stale] lastRemoved == nil || forall(k, string, has(urls, k) ==> urls[k] != lastRemoved) // C11: de-duplication leaves exactly one node per URL (the record never points at a removed node)
 //@   assert RemoveChild(parent)#1: [same-url] urlKey(node.url) == urlKey(existing.url) // C11: de-duplication leaves one node per URL
 //@   assert RemoveChild(parent)#1: [leaf-only] len(existing.children) == 0 // C11: de-duplication never discards a URL altogether
 //@   assert RemoveChild(parent)#2: [same-url] urlKey(node.url) == urlKey(existing.url)
